@@ -36,5 +36,5 @@ Deliverables, all in {os.path.dirname(wt)}/ (the parent of the worktree):
   1. patch.diff   - output of `git -C {wt} diff` (only the library change; do not modify or add tests inside the worktree; only files under kappadata/).
   2. demo.py      - a small standalone program (run as `cd {wt} && PYTHONPATH={wt} /venv/bin/python ../demo.py`) that exits 0 and prints PASS on the unmodified code and exits 1 (assertion failure, printing what differed) with your change applied. It should demonstrate the property violation through the library's public behaviour. Do NOT hard-code or assert the worktree path inside demo.py (it will later be run against another checkout via PYTHONPATH).
   3. notes.md     - 5-15 lines: what you changed, why it breaks the property, exactly what is needed for it to manifest (inputs / sequence / configuration), why the existing tests do not notice.
-Leave the worktree WITH your change applied when you finish. Confirm in your final answer: number of tests passing before and after, demo result before and after (use `git stash` / `git stash pop` inside the worktree to check the unmodified behaviour), and a one-paragraph description of the change.
+Leave the worktree WITH your change applied when you finish. Confirm in your final answer: number of tests passing before and after, demo result before and after (to check the unmodified behaviour use `git diff > ../p.diff; git apply -R ../p.diff; ...; git apply ../p.diff` inside the worktree - do NOT use `git stash`: the stash is shared between all worktrees of the repository and other people work in sibling worktrees), and a one-paragraph description of the change.
 """)
